@@ -340,7 +340,11 @@ def guarded(sseed, mode):
                 raise v
             v2 = Violation("C07", "grid search reloaded in mid-search does not continue as the uninterrupted one (which tries every combination "
                                   "exactly once): " + v.what, {"tag": "grid-reload-continuation"})
-            v2.also = [v]
+            # the same fact in the words of C15: the oracle loaded back from its saved state is not equal to the original in an
+            # observable respect - it hands out different trials on the same requests
+            v3 = Violation("C15", "a GridSearchOracle loaded back from its saved state (oracle.json + trial files) does not behave like the original: the "
+                                  "uninterrupted search tries every combination exactly once, the reloaded one does not: " + v.what, {"tag": "grid-state-round-trip"})
+            v2.also = [v, v3]
             raise v2
         raise
     except Exception as e:
@@ -396,7 +400,8 @@ def replay(doc):
     try:
         lines, expect, d, tags = guarded(doc["seed"], doc["mode"])
     except Violation as v:
-        res.violations.append({"pid": v.pid, "what": v.what, "sig": v.sig, "replay": doc})
+        for x in [v] + list(getattr(v, "also", [])):
+            res.violations.append({"pid": x.pid, "what": x.what, "sig": x.sig, "replay": doc})
         return res
     out = run_driver(lines) if lines else []
     compare(res, lines, expect, out, d)
